@@ -567,6 +567,33 @@ func XIdentifierShapes() []*spec.Spec {
 		out = append(out, withCell(spec.One("x_ident_oneof_"+style, f), "ident/thing=oneof,style="+style, "extended", "valid", "codec"))
 	}
 	{
+		// oneof members whose Go names protoc-gen-go has to resolve: the wrapper type <Msg>_<Member> clashes with a nested message
+		// of the same name (it gets a trailing underscore), and member names that clash with generated methods (Reset, String,
+		// Descriptor: the Go field gets a trailing underscore) - for a flattened, a nested and a plain oneof
+		msgs := []*spec.Message{spec.M("TextContent", spec.F("body", "string"))}
+		var names []string
+		for _, style := range []string{"Flat", "Nested", "Plain"} {
+			o := func() *spec.Oneof {
+				switch style {
+				case "Flat":
+					return &spec.Oneof{Name: "kind", Config: true, Disc: "type", Flatten: true}
+				case "Nested":
+					return &spec.Oneof{Name: "kind", Config: true, Disc: "type"}
+				}
+				return &spec.Oneof{Name: "kind"}
+			}
+			// (nested names unique per message: same-named nested types are a family of their own)
+			lc := strings.ToLower(style)
+			shape := spec.M("Shape"+style, spec.F("label", "string"), spec.Msg("circle_"+lc, "Shape"+style+".Circle"+style).In("kind"), spec.Msg("square_"+lc, "Shape"+style+".Square"+style).In("kind")).WithOneof(o())
+			shape.Messages = []*spec.Message{spec.M("Circle"+style, spec.F("radius", "int32")), spec.M("Square"+style, spec.F("side", "int32"))}
+			meth := spec.M("Methods"+style, spec.F("label", "string"), spec.Msg("reset", "TextContent").In("kind"), spec.Msg("string", "TextContent").In("kind"), spec.Msg("descriptor", "TextContent").In("kind")).WithOneof(o())
+			msgs = append(msgs, shape, meth)
+			names = append(names, shape.Name, meth.Name)
+		}
+		f := &spec.File{Messages: msgs, Services: []*spec.Service{EchoService("OneofMemberNameService", names...)}}
+		out = append(out, withCell(spec.One("x_ident_oneof_members", f), "ident/thing=oneof_member", "extended", "valid", "codec"))
+	}
+	{
 		outer := spec.M("Outer", spec.F("id", "string"))
 		for i, n := range []string{"Inner_", "inner", "I", "Inner__Deep", "Type", "I2x"} {
 			outer.Messages = append(outer.Messages, spec.M(n, spec.F("v", "string")))
